@@ -228,19 +228,32 @@ def startInLoop (c : C) : C :=
   if c.asserts ∧ ¬ startAssert c.cstate then die c (.abort "state_ == kDisconnected")
   else if startConnects c.cConnect then connect c else c
 
-/-- `Connector::startCycleInLoop()`; the ghost counters restart here whatever the code does -/
-def startCycle (c : C) : C :=
+/-- `Connector::cancelRetryTimer()`: `loop_->cancel(retryTimer_)` - the back-off timer armed by `retry` (whose id `retry`
+keeps in `retryTimer_`: `retryTimerStored`) is removed from the timer queue and will not run.  `retryTimer_` names the
+timer armed last; in every guarded history at most one back-off timer is pending (`Mid.a8`), so that one is all of
+them -/
+def cancelRetry (c : C) : C := { c with timers := c.timers.filter (fun t => !(t.2 == .retry)) }
+
+/-- the cancellation in front of a function's body, if the source has it there (generated flags) -/
+def cancelIf (b : Bool) (c : C) : C := if b then cancelRetry c else c
+
+/-- `Connector::startCycleInLoop()` behind its `cancelRetryTimer()`; the ghost counters restart here whatever the code does -/
+def startCycleCore (c : C) : C :=
   startInLoop { c with cstate := if cycleClearsState c.cstate then .kDisconnected else c.cstate,
                        delay := if cycleResetsDelay then kInitRetryDelayMs else c.delay,
                        nretry := 0, ups := 0, trace := c.trace ++ [.ghost .cycle] }
+
+/-- `Connector::startCycleInLoop()`: a back-off timer still pending from the previous cycle (`stop()` during the wait) is
+cancelled first (`cycleStartCancelsRetryTimer`, generated: the F33 fix) -/
+def startCycle (c : C) : C := startCycleCore (cancelIf cycleStartCancelsRetryTimer c)
 
 /-- `Connector::restart()` (checked structurally by the extractor) -/
 def restart (c : C) : C :=
   startInLoop { c with cstate := .kDisconnected, delay := kInitRetryDelayMs, cConnect := true, nretry := 0, ups := 0,
                        trace := c.trace ++ [.ghost .cycle] }
 
-/-- `Connector::stopInLoop()` -/
-def stopInLoop (c : C) : C :=
+/-- `Connector::stopInLoop()` behind its `cancelRetryTimer()` -/
+def stopInLoopCore (c : C) : C :=
   if stopActs c.cstate then
     match c.chan with
     | some k =>
@@ -248,6 +261,11 @@ def stopInLoop (c : C) : C :=
       else retry { c with cstate := .kDisconnected, chanOn := false, pending := c.pending ++ [.resetChannel] } k
     | none => die c (.uaf "stopInLoop: channel_ is null")
   else c
+
+/-- `Connector::stopInLoop()`: first the pending back-off timer is cancelled, under the test the source has there
+(`stopCancelsRetryTimer connect_`, generated: `¬ connect_` - a `stop()` that a later `connect()` has superseded leaves
+the new cycle's timer alone) -/
+def stopInLoop (c : C) : C := stopInLoopCore (cancelIf (decide (stopCancelsRetryTimer c.cConnect)) c)
 
 /-- `Connector::resetChannel()` -/
 def resetChannel (c : C) : C :=
